@@ -95,6 +95,12 @@ func RunOneCapped(t *testing.T, prop string, seed uint64, replay []int, tier str
 			}
 		}()
 		synctest.Test(t, func(t *testing.T) {
+			// a panic of the harness itself is infrastructure trouble, never a verdict (and must not kill the worker)
+			defer func() {
+				if r := recover(); r != nil {
+					res.Infra = "harness panic: " + fmt.Sprint(r) + "\n" + stack()
+				}
+			}()
 			var cs *choice.Stream
 			if replay != nil {
 				cs = choice.NewReplay(replay)
